@@ -1,6 +1,7 @@
 import Otel.Base.Wire
 import Otel.C15.Model
 import Otel.C15.Spec
+import Otel.C15.Gate
 open Otel Otel.Wire Otel.C15
 
 /-! Driver of C15. Line kinds: see harness/bb/c15life/c15_test.go (header). -/
@@ -139,6 +140,53 @@ def tpLine (kindsS : String) (opToks obsToks : List String) : Option Verdict := 
   pure { agree := agree, spec := spec, nontrivial := raw.any (fun (_, ds) => !ds.isEmpty),
          branches := if br.isEmpty then "-" else ",".intercalate br,
          model := " ".intercalate (renderTP n (fun _ => {}) model) }
+
+
+/-! ### trace provider, forced schedules: an End parked inside a processor while other ops run (`gtp`) -/
+def parseGOp (t : String) : Option Gate.GOp :=
+  if t == "rel" then some .rel
+  else match t.splitOn ":" with
+    | ["endg", j, k] => do pure (.endg (← j.toNat?) (← k.toNat?))
+    | _ => (parseTPOp t).map .op
+
+def parseGObs (s : String) : Option (Res × Bool × List (Nat × Cnt)) :=
+  if s.startsWith "parked" then (parseObs ("-" ++ dropS s 6)).map fun (r, ds) => (r, true, ds)
+  else (parseObs s).map fun (r, ds) => (r, false, ds)
+
+def gObs (prev : Nat → Cnt) : List (Res × Bool × List (Nat × Cnt)) → List Gate.GObs
+  | [] => []
+  | (r, p, ds) :: rest => let cur := applyDeltas prev ds; { res := r, parked := p, snap := cur } :: gObs cur rest
+
+def renderG (n : Nat) (prev : Nat → Cnt) : List Gate.GObs → List String
+  | [] => []
+  | o :: r => ((if o.parked then "parked" else renderRes o.res) ++ renderDelta n prev o.snap) :: renderG n o.snap r
+
+def gBranches (g : Gate.GSt) : List Gate.GOp → List String
+  | [] => []
+  | op :: r =>
+    let x := Gate.gstep g op
+    let tag := match op with
+      | .endg _ _ => if x.2.2 then "endg-parked" else "endg-through"
+      | .rel => if g.fly.isSome then (if (g.fly.getD []).isEmpty then "rel-last" else "rel-deliver") else "rel-idle"
+      | .op o => if g.fly.isSome then "overlap-" ++ tpBranch g.st o else tpBranch g.st o
+    tag :: gBranches x.1 r
+
+def gtpLine (kindsS : String) (opToks obsToks : List String) : Option Verdict := do
+  let kinds ← parseKinds parsePKind kindsS
+  let ops ← opToks.mapM parseGOp
+  let raw ← obsToks.mapM parseGObs
+  let n := kinds.length
+  let obs := gObs (fun _ => {}) raw
+  let model := Gate.grun kinds ops
+  let agree := model.length == obs.length &&
+    (model.zip obs).all fun (m, o) => m.res == o.res && m.parked == o.parked && snapEq n m.snap o.snap
+  let fails := Gate.gcheck kinds ops obs
+  let spec := if !fails.any then "ok"
+    else if Spec.TP.f26From {} (Gate.shadow ops) then "KNOWN:F26" else "FAIL:" ++ failTags fails
+  let br := dedup (gBranches { st := TP.init kinds } ops)
+  pure { agree := agree, spec := spec, nontrivial := raw.any (fun (_, p, _) => p),
+         branches := if br.isEmpty then "-" else ",".intercalate br,
+         model := " ".intercalate (renderG n (fun _ => {}) model) }
 
 /-! ### logger provider -/
 def parseLKind : String → Option LP.LKind
@@ -312,6 +360,7 @@ def stepLine (_ : Unit) (toks : List String) : Unit × Option Verdict :=
   let (inp, obs) := splitObs toks
   match inp with
   | "tp" :: _ :: kinds :: _ :: "|" :: ops => ((), tpLine kinds ops obs)
+  | "gtp" :: _ :: kinds :: "|" :: ops => ((), gtpLine kinds ops obs)
   | "lp" :: _ :: kinds :: "|" :: ops => ((), lpLine kinds ops obs)
   | "mp" :: _ :: kinds :: "|" :: ops => ((), mpLine kinds ops obs)
   | "ctp" :: _ :: kinds :: "|" :: ops => ((), concLine "ctp" kinds ops obs)
